@@ -767,8 +767,8 @@ class DeclableMatcher:
 		in_constructor = method_name == '__init__'
 		in_decl_var = elems[-3] in ['assign', 'anno_assign'] and elems[-2] == 'assign_namelist'
 		is_property = DSN.left(tokens, 1) == 'self' and DSN.elem_counts(tokens) == 2
-		is_receiver = via_full_path.last[1] in [0, -1]  # 代入式の左辺が対象
-		return in_constructor and in_decl_var and is_property and is_receiver
+		# XXX `assign_namelist`の要素は全て代入式の左辺(`self.a, self.b = ...`の2番目以降も宣言)
+		return in_constructor and in_decl_var and is_property
 
 	@classmethod
 	def is_param_class(cls, via: Node) -> bool:
